@@ -137,6 +137,26 @@ func (g *G) genC07(p *Plan) {
 		}
 		p.Clients = append(p.Clients, ops)
 	}
+	if c.Buckets != nil && recycler < 0 && c.Backend != "singlefs" && g.chance(0.3) {
+		// two buckets holding the same keys: requests for one must never be
+		// served from, or land in, the other
+		b2 := bucketNames[1]
+		c.Buckets = []string{b, b2}
+		for ci := range p.Clients {
+			for oi := range p.Clients[ci] {
+				op := &p.Clients[ci][oi]
+				switch op.K {
+				case "put", "get", "head", "del", "copy":
+					if op.B == b && g.chance(0.5) {
+						op.B = b2
+					}
+					if op.K == "copy" && op.SrcB == b && g.chance(0.5) {
+						op.SrcB = b2
+					}
+				}
+			}
+		}
+	}
 	c.Policy = g.policy(nclients)
 }
 
